@@ -107,8 +107,8 @@ CLAIMED = {
     "C11": {
         "category": "other",
         "design_ref": "DESIGN.md section 6, C11",
-        "technique": "Kani bounded harness (<= 5 objects, symbolic sizes / padding / branch range) on the real thunks::assign_thunk_blocks with a recording callback",
-        "text": "BLOCK-ASSIGNMENT KERNEL ONLY, BOUNDED to 5 objects - that branches are redirected to a thunk of the assigned block and that thunk code reaches the target is not decided. For every sequence of up to 5 objects in address order with symbolic sizes, padding and branch range, CBMC proves on the real function: every object is assigned exactly once to an existing block, block ids follow address order, every block has exactly one owner, and every object lies within the branch range plus the extents of itself and of the block's owner from the block's position - the strongest bound of that shape (the tighter variants are refuted), which is what the 2 MiB slack subtracted from the hardware range has to cover.",
+        "technique": "Kani bounded harnesses on the real thunks::assign_thunk_blocks (<= 5 objects, symbolic sizes / padding / branch range, recording callback) and on the real ThunkLayoutBuilder::compute_non_primary_text_size (built-in sections + 3 regular sections with symbolic EXECINSTR flags, part sizes and primary part; OutputSections as nondeterministic storage)",
+        "text": "BLOCK-ASSIGNMENT AND NON-PRIMARY-TEXT-SIZE KERNELS ONLY, BOUNDED - that branches are redirected to a thunk of the assigned block and that thunk code reaches the target is not decided. For every sequence of up to 5 objects in address order with symbolic sizes, padding and branch range, CBMC proves on the real function: every object is assigned exactly once to an existing block, block ids follow address order, every block has exactly one owner, and every object lies within the branch range plus the extents of itself and of the block's owner from the block's position - the strongest bound of that shape (the tighter variants are refuted), which is what the 2 MiB slack subtracted from the hardware range has to cover. The offset added to every primary object's planned position is proved to be the total size of all parts of all executable output sections other than the primary part, whatever their part ids.",
         "note": "The function is generic over an iterator and a callback (out of Verus's reach) and loops over objects (CBMC needs the count bounded). Assumption recorded with the claim: extent(owner) + extent(object) + thunk bytes <= 2 MiB; a single object with more primary text than that gets no guarantee. PLT/IFUNC targets, maybe_get_thunk_for_relocation and write_thunks are not covered.",
     },
     "C15": {
@@ -149,7 +149,7 @@ CLAIMED = {
 }
 
 # properties whose check has run green on the unchanged tree (only these are claimed)
-READY = {"C01", "C02", "C09", "C12", "C13", "C14", "C16", "C17", "C08", "C15", "C22", "C23", "C29", "C31"}
+READY = {"C01", "C02", "C09", "C12", "C13", "C14", "C16", "C17", "C08", "C11", "C15", "C22", "C23", "C29", "C31"}
 
 PENDING = {
     pid: "check under construction in this session (planned claim, see DESIGN.md section 6); not claimed until its obligations run green"
